@@ -38,7 +38,7 @@ def gen_case(rng: Rng, i: int, tier: str):
     names = _recipe_names(arc)
     model_stub = [rw.Mem(n, b"", "file", None, None) for n in names]
     seq = rsess.gen_sequence(r, model_stub, maxlen=8 if tier == "thorough" else 5)
-    return {"archive": arc, "seq": seq, "open": r.pick(["path", "stream"]), "end": r.wpick([(3, "close"), (2, "ctx"), (2, "exception")]),
+    return {"archive": arc, "seq": seq, "open": r.pick(["path", "stream", "anon"]), "end": r.wpick([(3, "close"), (2, "ctx"), (2, "exception")]),
             "read": {"block": r.pick([16, 4096, 32768, 1048576]), "chunk": r.pick([17, 4096, 128000000]), "bufsize": r.pick([16, 512, 8192])},
             "exc_at": r.randint(0, 3)}
 
